@@ -177,6 +177,19 @@ async fn run(input: RunInput, mode: Mode) -> RunOutput {
     }
     let ids: Vec<PeerId> = slots.iter().map(|s| s.node.peer_id).collect();
     let addrs: Vec<_> = slots.iter().map(|s| s.node.addr).collect();
+    // the nodes may know each other: entries with affinity Allowed *and an address* in everybody's
+    // known-peer table. Nothing dials an Allowed peer on its own (C13), and knowing where a peer
+    // lives is no connection: a disconnected peer stays disconnected until somebody dials
+    if w.flag("nodes_know_each_other_as_allowed_peers", 0.3) {
+        for i in 0..n {
+            for j in 0..n {
+                if i != j {
+                    slots[i].node.net.known_peers().insert(anemo::types::PeerInfo { peer_id: ids[j], affinity: anemo::types::PeerAffinity::Allowed, address: vec![addrs[j].into()] });
+                }
+            }
+        }
+        w.probe("nodes-know-each-other");
+    }
     // bound for "reported lost by the other side": effective idle timeout + one keep-alive
     // interval (QUIC restarts the idle timer on the first ack-eliciting packet sent after the
     // last one received) + latency + quantum
